@@ -19,19 +19,20 @@ NUM: /[0-9]+/
 '(': /\(/
 ')': /\)/
 ';': /;/
+LOW:
+UMINUS:
 
 :: parser
 
 %input Prog, Expr no-eoi;
 
-%nonassoc 'else' LOW;
+%nonassoc LOW;
+%nonassoc 'else' 'orelse';
 %nonassoc '<';
 %left '+' '-';
 %left '*';
 %right UMINUS;
 
-LOW:
-UMINUS:
 
 Prog -> Prog: Stmt* ;
 
